@@ -217,7 +217,13 @@ def run_C02(ctx):
     edge = ["1/0", "1/(0*i)", "5 % 0", "(1+i) % (0+0*i)", "0/0", "2.5!", "(-1)!", "i!", "0!", "1!", "20!", "170!", "⌈i⌉", "⌊1+i⌋", "⌈2.5⌉", "⌊-2.5⌋",
             "|3+4*i|", "|-7|", "√-4", "√(-4)", "√i", "(-8)^(1/3)", "2^3^2", "2^-1", "-2^2", "(-2)^2", "0^0", "i^i", "7 % 3", "-7 % 3", "7 % -3", "7.5 % 2",
             "(5+3*i) % 2", "1 - -1", "--1", "-√4", "√√16", "3!!", "-3!", "2^3!", "10 - 4 - 3", "100 / 10 / 5", "2 * 3 % 4", "1 + 2 * 3 - 4 / 5",
-            "c", "G", "tau - 2*pi", "e^(i*pi) + 1", "phi^2 - phi - 1", "ϕ - phi", "π - pi", "i*i"]
+            "c", "G", "tau - 2*pi", "e^(i*pi) + 1", "phi^2 - phi - 1", "ϕ - phi", "π - pi", "i*i",
+            # negative zero, NaN, subnormals, the largest finite values
+            "-0", "0 * -1", "-(0)", "0 - 0", "√(0 * -1)", "√-0", "(0*-1) ^ 0.5", "|0 * -1|", "⌈-0.5⌉", "⌊-0⌋", "1 / (0 * -1)", "-1 % 1", "(0*-1) + (0*-1)",
+            "0 * -1 * i", "(0*-1)!", "(0 * -1) ^ 0", "4.9e-324 / 2", "4.9e-324 * 0.5", "2.2250738585072014e-308 / 2", "1.7976931348623157e308 + 1e292",
+            "1.7976931348623157e308 * 2", "1e308 * 10 - 1e308 * 10", "(1e308*10) ^ 0", "(1e308*10) % 2", "2 % (1e308*10)", "|1e200|", "|1e-200|",
+            "|3e200 + 4e200*i|", "|3e-200*i|", "√(1e300 * i)", "(1e200)^2", "169!", "170!", "171!", "(169+1)!", "1.7e2!", "18!", "19!", "22!", "23!",
+            "⌈1e300⌉", "⌊-1e300⌋", "⌈0.1 + 0.2⌉", "⌊0.1 * 3 * 10⌋", "5 % 3", "5.5 % -2", "-5.5 % 2", "(5+5*i) % 3", "(5+5*i) % (1+i)", "7 % 7", "1e300 % 7"]
     run_values(ctx, "edge", edge, oracle=oracles.oracle_numbers)
 
 
@@ -296,7 +302,10 @@ def run_C04(ctx):
               nontrivial=lambda pl: True)
     nums = [gen.random_number_text(rng) for _ in range(4000 if quick else 100000)] + \
         ["0", "0.1", "0.3", "1e23", "9007199254740993", "1.7976931348623157e308", "1.7976931348623159e308", "4.9e-324", "2.4703282292062327e-324",
-         "2.4703282292062328e-324", "2.2250738585072014e-308", "2.2250738585072011e-308", "123456789012345678901234567890", "0.000001e-310"]
+         "2.4703282292062328e-324", "2.2250738585072014e-308", "2.2250738585072011e-308", "123456789012345678901234567890", "0.000001e-310",
+         "0.000000000000000001", "0.000000000000000001e18", "1.000000000000000111022302462515655", "1.00000000000000011102230246251565404236316680908203125",
+         "1.00000000000000011102230246251565404236316680908203124", "0.1000000000000000055511151231257827021181583404541015625", "9007199254740992.5", "9007199254740993.5",
+         "4.9406564584124654e-324", "8.98846567431158e307", "0.30000000000000004", "1" + "0" * 308, "1" + "0" * 309, "0." + "0" * 323 + "49", "0." + "0" * 323 + "25"]
     do_stream(ctx, "fmt-from_str", ("fmt n%d s:%s" % (k, hx(t)) for k, t in enumerate(nums)), None)
     oracles.table_keywords(ctx)
 
@@ -332,6 +341,7 @@ def hist_streams(ctx, P, monitors, oracle=None):
     do_stream(ctx, "hist-exhaustive", props.hist_exhaustive(L), P, monitors=monitors, oracle=oracle,
               exhaustive="all histories over the 26-statement alphabet up to length %d, each followed by the probe text" % L)
     do_stream(ctx, "hist-random", props.hist_random(rng, 1500 if quick else 40000), P, monitors=monitors, oracle=oracle)
+    do_stream(ctx, "hist-generated", props.hist_generated(rng, 1500 if quick else 40000), P, monitors=monitors, oracle=oracle)
 
 
 def run_C09(ctx):
